@@ -435,9 +435,18 @@ def x_read_push(body):
                     v = strip(b["args"][0])
                     if v.get("k") == "Lit" and v.get("lit") == "bool":
                         return [leaf(op="validity", value=bool(v["v"]), sp=tir.sp(n))]
-        if k == "If" or k == "Match":
-            # `if let Some(v) = &mut self.validity { v.push(true) }`
-            pass
+        if k == "If" and strip(n["cond"]).get("k") == "LetCond" and not n.get("else"):
+            # `if let Some(v) = self.validity.as_mut() { v.push(true) }`
+            lc = strip(n["cond"])
+            if (lc["pat"].get("path") or "").endswith("Some") and field_of_self(lc["init"]) == "validity":
+                vn = lc["pat"]["pats"][0].get("name")
+                body = strip_try(n["then"])
+                if body.get("k") == "Block" and len(body.get("stmts", [])) == 1 and not body.get("tail"):
+                    body = strip_try(body["stmts"][0])
+                if body.get("k") == "MethodCall" and (declared(body) or "") == "arrow2::bitmap::MutableBitmap::push" and local_name(body["recv"]) == vn:
+                    v = strip(body["args"][0])
+                    if v.get("k") == "Lit" and v.get("lit") == "bool":
+                        return [leaf(op="validity", value=bool(v["v"]), sp=tir.sp(n))]
         # let x = r.read_T()?;
         if k == "Let":
             rd = read_call(n.get("init") or {})
